@@ -105,9 +105,10 @@ func Advance(d time.Duration) {
 }
 
 type Timer struct {
-	C  <-chan time.Time
-	c  chan time.Time
-	tm *timer
+	C    <-chan time.Time
+	c    chan time.Time
+	tm   *timer
+	fire func(w *World)
 }
 
 func NewTimer(d time.Duration) *Timer {
@@ -117,14 +118,29 @@ func NewTimer(d time.Duration) *Timer {
 	if w == nil {
 		return t
 	}
-	t.tm = w.addTimer(d, false, func(w *World) {
+	t.fire = func(w *World) {
 		cs := chanOfT(w, c)
 		if len(cs.q) < cs.cap {
 			cs.q = append(cs.q, epoch.Add(time.Duration(w.now)))
 			cs.o.wHash = mix(cs.o.wHash, 0x71c5)
 		}
-	})
+	}
+	t.tm = w.addTimer(d, false, t.fire)
 	return t
+}
+
+// Reset re-arms the timer. Like time.Timer.Reset under the pre-Go-1.23 timer semantics that the
+// repository's go.mod selects, it does NOT drain the channel: a tick that was already
+// delivered and not received stays there.
+func (t *Timer) Reset(d time.Duration) bool {
+	w := live()
+	if w == nil || t.tm == nil {
+		return false
+	}
+	was := !t.tm.stopped && !t.tm.fired
+	t.tm.stopped = true
+	t.tm = w.addTimer(d, false, t.fire)
+	return was
 }
 
 func (t *Timer) Stop() bool {
